@@ -9,7 +9,7 @@ fn vf_get_plan() {
     let td = crate::core::testing::new_testdir().unwrap();
     let wp = td.path();
     // a: default command directory; a/b: custom command directory + definitions; c: nothing on disk
-    for f in ["a/monorail/cmd/build.sh", "a/monorail/cmd/lint.fix.sh", "a/monorail/cmd/test.py", "a/monorail/cmd/testing.py", "a/b/scripts/lint.rb", "a/b/scripts/build.sh", "tools/b.sh", "shared/cmds/build.sh", "shared/cmds/lint.py", "tools/e-build.sh", "d/README", "e/README"] { vf_touch(&wp.join(f)); }
+    for f in ["a/monorail/cmd/build.sh", "a/monorail/cmd/lint.fix.sh", "a/monorail/cmd/test.py", "a/monorail/cmd/testing.py", "a/b/scripts/lint.rb", "a/b/scripts/build.sh", "tools/b.sh", "shared/cmds/build.sh", "shared/cmds/lint.py", "tools/e-build.sh", "f/monorail/cmd/build.sh", "d/README", "e/README"] { vf_touch(&wp.join(f)); }
     vf_touch(&wp.join("c/README"));
     // the targets are deliberately NOT declared in lexicographic order: a target's definitions are its own, wherever it is declared
     let cfg: core::Config = serde_json::from_str(r#"{"targets":[
@@ -17,7 +17,8 @@ fn vf_get_plan() {
         {"path":"c","commands":{"definitions":{"test":{"path":"c/run-tests"}}}},
         {"path":"a/b","commands":{"path":"a/b/scripts","definitions":{"build":{"path":"tools/b.sh"},"lint":{"path":""}}}},
         {"path":"d","commands":{"path":"shared/cmds"}},
-        {"path":"a"}]}"#).unwrap();
+        {"path":"a"},
+        {"path":"f/"}]}"#).unwrap();
     let index = core::Index::new(&cfg, &cfg.get_target_path_set(), wp).unwrap();
     let mut argmap = ArgMap::new();
     let mut m: HashMap<String, HashMap<String, Vec<String>>> = HashMap::new();
@@ -27,7 +28,7 @@ fn vf_get_plan() {
     argmap.merge(m);
     let cmds: Vec<String> = vec!["build".into(), "lint".into(), "test".into(), "nothere".into()];
     let (mut checked, mut bad) = (0u64, 0u64);
-    for groups in [vec![vec!["a".to_string(), "c".to_string()], vec!["a/b".to_string()]], vec![vec!["a/b".to_string()], vec!["c".to_string()], vec!["a".to_string()]], vec![vec!["c".to_string()]], vec![], vec![vec!["d".to_string(), "e".to_string()]], vec![vec!["e".to_string()], vec!["d".to_string(), "a".to_string()]]] {
+    for groups in [vec![vec!["a".to_string(), "c".to_string()], vec!["a/b".to_string()]], vec![vec!["a/b".to_string()], vec!["c".to_string()], vec!["a".to_string()]], vec![vec!["c".to_string()]], vec![], vec![vec!["d".to_string(), "e".to_string()]], vec![vec!["e".to_string()], vec!["d".to_string(), "a".to_string()]], vec![vec!["f/".to_string(), "a".to_string()]]] {
         for order in [vec![0usize, 1, 2, 3], vec![3, 2, 1, 0], vec![1], vec![0, 1, 0], vec![2, 0, 2, 0, 0]] {
             checked += 1;
             let commands: Vec<&String> = order.iter().map(|i| &cmds[*i]).collect();
@@ -51,11 +52,16 @@ fn vf_get_plan() {
                         ("d", "build") => Some(wp.join("shared/cmds/build.sh")),
                         ("d", "lint") | ("e", "lint") => Some(wp.join("shared/cmds/lint.py")),
                         ("e", "build") => Some(wp.join("tools/e-build.sh")),
+                        ("f/", "build") => Some(wp.join("f/monorail/cmd/build.sh")),
                         _ => None,
                     };
                     let exp_args: Option<Vec<String>> = match (t.path.as_str(), cmd) { ("a", "build") => Some(vec!["--release".into(), "-v".into()]), ("a/b", "lint") => Some(vec!["--fix".into()]), ("c", "build") => Some(vec![]), _ => None };
                     if t.command_path != exp_path { bad += 1; println!("VF-FAIL {} :: target {} command {}: executable {:?}, documented resolution gives {:?} - the target's own definition for the command when it has one (whether or not that file exists: a missing file is `not_executable`, not `undefined`), else the file of that stem in its command directory (C11) (C05) (C06) (C16)", what, t.path, cmd, t.command_path, exp_path); }
                     if t.command_work_path != wp.join(&t.path) { bad += 1; println!("VF-FAIL {} :: target {} command {}: working directory {:?}, must be the target's own directory (C11)", what, t.path, cmd, t.command_work_path); }
+                    // C08 / C12: a task's archives are <slot>/<command>/<sha-256 of the target's path AS CONFIGURED>/stdout.zst and stderr.zst - the
+                    // directory `log show` looks up for that target
+                    { use sha2::Digest; let mut h = sha2::Sha256::new(); h.update(t.path.as_bytes()); let dir = run_path.join(cmd).join(format!("{:x}", h.finalize()));
+                      if t.logs.stdout_path != dir.join("stdout.zst") || t.logs.stderr_path != dir.join("stderr.zst") { bad += 1; println!("VF-FAIL {} :: target {:?} command {}: archives {:?} / {:?}, `log show` looks for them in {:?} (C08) (C12)", what, t.path, cmd, t.logs.stdout_path, t.logs.stderr_path, dir); } }
                     if t.command_args != exp_args { bad += 1; println!("VF-FAIL {} :: target {} command {}: arguments {:?}, the argmap holds {:?} (C11)", what, t.path, cmd, t.command_args, exp_args); }
                 }
             }
